@@ -250,3 +250,25 @@ pub fn gen_source(rng: &mut Rng) -> (String, Vec<u8>) {
         }
     }
 }
+
+/// sources that keep the tokenizer switching modes: hex patterns and jumps with junk inside,
+/// unbalanced braces/brackets, bytes the lexers do not know, input ending inside a hex mode
+pub fn gen_hexy(rng: &mut Rng) -> Vec<u8> {
+    const HEX: &[&str] = &["01", "AB", "ff", "??", "4?", "~0A", "(", ")", "|", "[", "]", "[2]", "[1-3]", "[4-]", "[-]", "[ 2 - 4 ]", "[0x10]", "[1KB]",
+        "{", "}", "zz", "x", "-", "1", "0o7", "\"s\"", "/* c */", "// c\n", "\n", "\r\n", "\u{a0}", "\u{3000}", "\u{e9}", "\u{1f600}", "$a", "=", "condition", ":"];
+    let mut v: Vec<u8> = Vec::new();
+    v.extend_from_slice(b"rule h { strings: ");
+    for k in 0..(1 + rng.below(3)) {
+        v.extend_from_slice(format!("$a{} = ", k).as_bytes());
+        if rng.chance(5, 6) { v.extend_from_slice(b"{ "); }
+        for _ in 0..(1 + rng.below(8)) {
+            if rng.chance(1, 14) { v.extend_from_slice(*rng.pick(&[&[0xffu8][..], &[0xe2, 0x80], &[0xc3], &[0xe2, 0x81], &[0xf0, 0x9f], &[0x80]])); }
+            else { v.extend_from_slice(rng.pick(HEX).as_bytes()); }
+            if rng.chance(4, 5) { v.push(b' '); }
+        }
+        if rng.chance(5, 6) { v.extend_from_slice(b"} "); }
+    }
+    if rng.chance(5, 6) { v.extend_from_slice(b"condition: $a0 }"); }
+    if rng.chance(1, 6) { let p = rng.below(v.len() as u64) as usize; v.truncate(p); }
+    v
+}
